@@ -94,9 +94,10 @@ def run(B, case, elems_per_operand):
         items.append(('dtype', [gd], [wd]))
     if op['inplace']:
         items.append(('receiver_is_result', [got is ops[0]], [True]))
-        for k in range(1, len(ops)):
-            items.append((f'operand{k}_unchanged', flat_of(B, ops[k])[1], before[k]))
-    else:
+        if not op.get('mutates_other'):
+            for k in range(1, len(ops)):
+                items.append((f'operand{k}_unchanged', flat_of(B, ops[k])[1], before[k]))
+    elif not op.get('mutates_self'):
         for k in range(len(ops)):
             items.append((f'operand{k}_unchanged', flat_of(B, ops[k])[1], before[k]))
     if INV_PROBLEMS:
